@@ -122,6 +122,8 @@ struct Page<'a> {
     twin: Sess,
     /// twin's last error that has not been taken yet (error text incl. caret lines)
     twin_error: Option<String>,
+    last_ok: bool,
+    last_replaced: bool,
     is_fully_interactive: bool,
     input_disabled: bool,
     now: u32,
@@ -176,13 +178,17 @@ impl<'a> Page<'a> {
 
     fn replace_rule(&mut self) {
         // what the adapter does after a successful call: install a fresh interpreter after NEW
+        self.last_ok = true;
         if self.twin.state() == St::NewReq {
             self.twin.apply(&Op::Replace);
             self.ctx.count("fault.new+replace");
+            self.last_replaced = true;
         }
     }
 
     fn twin_call(&mut self, op: &Op, with_caret: bool) -> PR {
+        self.last_ok = false;
+        self.last_replaced = false;
         let Some(call) = self.twin.apply(op) else {
             return Err(Violation::new("C19/harness", "twin illegal op", format!("{:?} in {:?}", op, self.twin.state())));
         };
@@ -208,6 +214,23 @@ impl<'a> Page<'a> {
         self.web.start_evaluating(line).map_err(|p| trap(&format!("start_evaluating({:?})", brief(line)), p))?;
         self.ctx.calls(1);
         self.twin_call(&Op::Line(line.to_string()), true)?;
+        // NEW, spelled unambiguously, typed at the prompt and accepted: from here on the page must be
+        // talking to an interpreter indistinguishable from a freshly created one, however the core and
+        // the adapter arrange that. If the core did not ask for a replacement, the twin gets one anyway.
+        let squeezed: String = line.chars().filter(|c| !c.is_whitespace()).collect::<String>().to_ascii_uppercase();
+        if squeezed == "NEW" && self.last_ok && !self.last_replaced && self.twin.state() == St::Idle {
+            self.ctx.count("reach.new_without_replacement_request");
+            let have = crate::drive::probe_text(&self.twin);
+            let fresh = crate::drive::probe_text(&Sess::new());
+            if have != fresh {
+                return Err(Violation::new(
+                    "C19/new-not-fresh",
+                    "state after NEW differs from a fresh interpreter".to_string(),
+                    format!("after `{}` the core neither asked to be replaced nor is in the state of a fresh interpreter:\n{}\nfresh:\n{}", brief(line), have, fresh),
+                ));
+            }
+            self.twin.force_fresh();
+        }
         self.twin_state_matches("start_evaluating")
     }
 
@@ -415,6 +438,8 @@ fn simulate(c: &Case, variant: ScriptVariant, ctx: &mut Ctx) -> Option<Violation
         web: WebSess::new(),
         twin: Sess::new(),
         twin_error: None,
+        last_ok: false,
+        last_replaced: false,
         is_fully_interactive: true,
         input_disabled: false,
         now: 0,
